@@ -324,6 +324,7 @@ PWpart(ids) ==
   /\ noProg' = 0
   /\ viol' = viol \cup V(IsPrefixOf(inAcc \o ids, input), "C02_in_exact")
                    \cup V(dl # NoTime => IsPrefixOf(inAcc \o ids, input), "C04_input_delivered_exactly_once_across_resumed_reads")
+                   \cup V(limit >= 0 => IsPrefixOf(inAcc \o ids, input), "C03_input_delivered_exactly_once_across_limited_reads")
   /\ UNCHANGED <<piped, cap, k, short, input, flood, pOpen, cOpen, cPend, cAlive, now, inCall, limit, dl, sawEof,
                  written, delivered, cRecv, cEof, after, sanity>>
 
@@ -347,6 +348,7 @@ PWrite(ids, n) ==
         IN /\ after' = a /\ noProg' = m
            /\ viol' = viol \cup V(IsPrefixOf(inAcc \o rest, input), "C02_in_exact")
                            \cup V(dl # NoTime => IsPrefixOf(inAcc \o rest, input), "C04_input_delivered_exactly_once_across_resumed_reads")
+                           \cup V(limit >= 0 => IsPrefixOf(inAcc \o rest, input), "C03_input_delivered_exactly_once_across_limited_reads")
                            \cup V(AfterOk(a), "C04_bounded") \cup V(SpinOk(m), "C01_no_spin")
   /\ pwDone' = 0
   /\ UNCHANGED <<piped, cap, k, short, input, flood, pOpen, cOpen, cPend, cAlive, now, inCall, limit, dl, sawEof,
